@@ -12,7 +12,7 @@ import (
 	"github.com/mna/pigeon/bootstrap"
 )
 
-const verifPigeon = "/verif/build/bin/pigeon-verif"
+const verifPigeon = "/verif/build/bin/pigeon"
 
 func region(t *testing.T, path string) string {
 	b, err := os.ReadFile(path)
